@@ -255,7 +255,7 @@ def run(ctx, replay=None):
             nontrivial=lambda c: c['fin']['cnt'] > 1)
     lim_hits = sum(1 for c in core_cases if c['fin']['status'] == 'limit')
     if not lim_hits or not any(c['limit'] == 0 for c in core_cases):
-        raise tlc.MachineryError('vacuity: no aborted run or no unlimited run in the sample')
+        ctx.vacuous('vacuity: no aborted run or no unlimited run in the sample')
     ctx.notes['families'] = len(families)
     ctx.notes['runs_aborted_at_limit'] = lim_hits
     ctx.notes['structured_programs'] = nbody
